@@ -40,6 +40,7 @@ def run(ctx: Ctx, rep: Report) -> None:
     rep.rule("C04-R4", "a constant subscript on a result list is preceded by an established length", floor=2)
     rep.rule("C04-R5", "a missing object (noSuchObject / noSuchInstance value) raises NoSuchOID for the requested OID", floor=4)
     rep.rule("C04-R6", "operations taking a caller-ordered OID list keep one result position per requested OID", floor=2)
+    rep.rule("C04-R8", "get-next hands out every lexicographic successor: the progress guard passes requested < retrieved, position by position (shared with C03-R2/R3)", floor=8)
     rep.rule("C04-R7", "get-bulk: size bound, OID list, counters and response split agree (shared with C02-R2/R3)", floor=30)
     rep.assumptions += ["the response PDU's binding list is what the agent sent (C06)", "request-id handling is C07, error-status handling is C08, GETBULK bound is C02"]
     client = ctx.client()
@@ -243,6 +244,7 @@ def run(ctx: Ctx, rep: Report) -> None:
     wm = WalkModel(ctx)
     check_bulk_builder(ctx, rep, wm, "C04-R7", "C04-R7")
     check_bulkget_result(ctx, rep, client)
+    rep.adopt_rules(ctx.sub_run("c03", rep), "C04-R8", ["C03-R2", "C03-R3"])
     for name in ("multigetnext", "multiget"):
         meth = client.methods.get(name)
         if meth is None:
